@@ -84,7 +84,7 @@ Fixpoint compare_fuel (n : nat) (lhs rhs : jv) : cmp :=
       let arr_eq := fix arr_eq (x y : list jv) : bool :=
         match x, y with
         | [], [] => true
-        | a :: x', b :: y' => is_equal (cmpv b a) && arr_eq x' y'     (* *a != *b evaluates compare(*b, *a) *)
+        | a :: x', b :: y' => is_equal (cmpv b a) && arr_eq x' y'     (* "a != b" on the elements evaluates compare(b, a) *)
         | _, _ => false
         end in
       (* JsonObjectConst::operator==(x, y): every member of x has an equal value under y[key]
